@@ -1,12 +1,13 @@
 """C09 - see properties.jsonl; DESIGN.md section 5."""
 from ._generic import run_property
 
-EXPLANATION = 'Mixed. P: writer.write_multi, find_max_part and api.part_ids executed symbolically from their real sources on an I/O effect trace: every file an append opens for writing before the summary files has a part number different from that of EVERY referenced file (for any number of existing row groups and any part numbering, holes included), data files are only opened wb, and the summary files are written once, after the part loop - the invariant is checked at every I/O call, so it holds wherever the k-th call fails. B (labelled bounded): model-based histories over {write, append, overwrite, remove_row_groups, write_row_groups(sort)} with directory/metadata agreement after every step.'
+EXPLANATION = 'Mixed. P: writer.write_multi, find_max_part and api.part_ids executed symbolically from their real sources on an I/O effect trace: every file an append opens for writing before the summary files has a part number different from that of EVERY referenced file (for any number of existing row groups and any part numbering, holes included), data files are only opened wb, and the summary files are written once, after the part loop - the invariant is checked at every I/O call, so it holds wherever the k-th call fails. Also P, per call and for every dataset size: remove_row_groups (num_rows, the row-group list = old minus chosen in order, exactly the files of the chosen row groups removed, partial removal raises before any effect), writer.overwrite (partition text built from the ordered partition keys, exactly the matching partitions removed, new data written before old data removed, metadata last), api.partitions, api.part_ids, row_groups_map and the two-pass rename plan of _sort_part_names (temporary names fresh, sources live, targets free, metadata follows the renames); refuted obligations are known findings. B (labelled bounded): model-based histories over {write, append, overwrite, remove_row_groups, write_row_groups(sort)} with directory/metadata agreement after every step.'
 
 
 def p_parts():
     from ._parts import p_parts as p_partnames
-    return [p_partnames]
+    from ._edits import p_edits
+    return [p_partnames, p_edits]
 
 
 def run(ctx):
